@@ -72,22 +72,28 @@ fn can_tokens(toks: &[u64]) -> VecDeque<CanTok> {
     }
     v
 }
-pub fn poll_tokens(link: u64, toks: &[u64]) -> L {
+pub fn poll_tokens(link: u64, toks: &[u64]) -> L { poll_tokens_duplex(link, toks, false) }
+// duplex: before the first poll the receiving node itself transmits a small packet, its transmitter answering would-block a few times
+pub fn poll_tokens_duplex(link: u64, toks: &[u64], duplex: bool) -> L {
+    let out_pkt = Packet { is_error: false, device_address: 0x4242, data: vec![1, 2, 3, 4, 5, 6, 7, 8, 9] };
     let mut obs: L = Vec::with_capacity(toks.len() * 8 + 256);
     match link {
         0 => {
-            let st = Rc::new(RefCell::new(CanSt { rx: can_tokens(toks), ..Default::default() }));
+            let st = Rc::new(RefCell::new(CanSt { rx: can_tokens(toks), accept_all: true, ans: vec![1, 1, 0, 1, 0].into_iter().collect(), ..Default::default() }));
             let mut rx = Can::new(ross_protocol::interface::can::verif_sim::Can::new(CanDev(st.clone())));
+            if duplex { let _ = catch_unwind(AssertUnwindSafe(|| rx.try_send_packet(&out_pkt))); }
             drive(&mut rx, &|| st.borrow().rx.len(), &|| st.borrow_mut().spins = 0, &mut obs);
         }
         1 => {
-            let st = Rc::new(RefCell::new(UsartSt { rx: toks.iter().map(|x| *x as u16).collect(), ..Default::default() }));
+            let st = Rc::new(RefCell::new(UsartSt { rx: toks.iter().map(|x| *x as u16).collect(), accept_all: true, ans: vec![1, 0, 1, 1, 0].into_iter().collect(), ..Default::default() }));
             let mut rx = Usart::new(UsartDev(st.clone()));
+            if duplex { let _ = catch_unwind(AssertUnwindSafe(|| rx.try_send_packet(&out_pkt))); }
             drive(&mut rx, &|| st.borrow().rx.len(), &|| st.borrow_mut().spins = 0, &mut obs);
         }
         _ => {
             let st = Arc::new(Mutex::new(SerSt { rx: toks.iter().map(|x| *x as u16).collect(), max_read: (toks.len() % 3), ..Default::default() }));
             let mut rx = Serial::new(Box::new(SerDev(st.clone())));
+            if duplex { st.lock().unwrap().flush_ok = true; let _ = catch_unwind(AssertUnwindSafe(|| rx.try_send_packet(&out_pkt))); }
             drive(&mut rx, &|| st.lock().unwrap().rx.len(), &|| st.lock().unwrap().spins = 0, &mut obs);
         }
     }
@@ -266,7 +272,8 @@ pub fn exec_lnk(case: &[u64]) -> L {
         }
         Some(toks)
     }));
-    match built { Ok(Some(toks)) => poll_tokens(link, &toks), _ => vec![3] }
+    let duplex = rest.len() == 1 && rest[0] != 0;
+    match built { Ok(Some(toks)) => poll_tokens_duplex(link, &toks, duplex), _ => vec![3] }
 }
 pub fn gen_lnk(r: &mut Rng, thorough: bool, cx: &mut Ctx) {
     for link in 0..3u64 {
@@ -279,6 +286,7 @@ pub fn gen_lnk(r: &mut Rng, thorough: bool, cx: &mut Ctx) {
                 let n = if long { r.range(0, 40) as usize } else { match r.below(8) { 0 => r.below(9) as usize, 1 => 8, 2 => 9, 3 => r.range(14, 15) as usize, 4 => r.range(200, 400) as usize, _ => r.range(0, 64) as usize } };
                 let p = gen_packet(r, n); show_packet(&p, &mut l);
             }
+            if k % 5 == 3 { l.push(1); }      // full duplex: the receiving node transmits before it polls
             cx.emit(&l);
         }
         // large packets (4096 frames in the thorough tier)
